@@ -43,14 +43,64 @@ var (
 const idpBase = "https://idp.example.com"
 
 // newServer builds the real samlidp.Server over the given store.
-func newServer(store samlidp.Store) (*samlidp.Server, error) {
-	return samlidp.New(samlidp.Options{
+func newServer(store samlidp.Store) (*samlidp.Server, error) { return newServerOpt(store, false) }
+
+// newServerOpt: minimal = every optional Option left unset (Logger, Signer,
+// LoginFormTemplate): the defaults of samlidp.New must serve every request too.
+func newServerOpt(store samlidp.Store, minimal bool) (*samlidp.Server, error) {
+	o := samlidp.Options{
 		Certificate: idpCert,
 		Key:         idpKey,
-		Logger:      quietLogger{},
 		Store:       store,
 		URL:         url.URL{Scheme: "https", Host: "idp.example.com"},
-	})
+	}
+	if !minimal {
+		o.Logger = quietLogger{}
+	}
+	return samlidp.New(o)
+}
+
+const startupDeadline = 8 * time.Second
+
+// startServer runs samlidp.New with a deadline: a start-up that does not return is reported, not waited for.
+func startServer(store samlidp.Store, minimal bool) (srv *samlidp.Server, err error, hung bool, panicked any) {
+	type out struct {
+		s *samlidp.Server
+		e error
+		p any
+	}
+	ch := make(chan out, 1)
+	go func() {
+		var o out
+		defer func() {
+			if p := recover(); p != nil {
+				o.p = p
+			}
+			ch <- o
+		}()
+		o.s, o.e = newServerOpt(store, minimal)
+	}()
+	select {
+	case o := <-ch:
+		return o.s, o.e, false, o.p
+	case <-time.After(startupDeadline):
+		return nil, nil, true, nil
+	}
+}
+
+// escSeg percent-encodes a name as ONE path segment (slashes, dots, percent signs and all):
+// the mux hands the decoded name to the handler.
+func escSeg(s string) string {
+	var sb strings.Builder
+	for i := 0; i < len(s); i++ {
+		c := s[i]
+		if c >= 'a' && c <= 'z' || c >= 'A' && c <= 'Z' || c >= '0' && c <= '9' || c == '-' || c == '_' {
+			sb.WriteByte(c)
+		} else {
+			sb.WriteString(fmt.Sprintf("%%%02X", c))
+		}
+	}
+	return sb.String()
 }
 
 const postBinding = "urn:oasis:names:tc:SAML:2.0:bindings:HTTP-POST"
